@@ -26,7 +26,8 @@ let model_build b =
     let rid = let rec find k = function [] -> failwith "c15: route not registered" | i :: r -> if i = b.idx then k else find (k + 1) r in find 0 ridmap in
     let route = List.nth rt.routes rid in
     let path = build_path route.rt_path b.vals (var_texts route.rt_path) in
-    let q = if b.style = "b" then [] else sort_assoc b.extra in
+    let q = if b.style = "b" then List.concat (List.map (fun (k, v) -> [(k, v); (k, v @ str_of_ascii "~2")]) (sort_assoc b.extra))
+      else sort_assoc b.extra in
     let m = match route.rt_methods with m :: _ -> m | [] -> str_of_ascii "GET" in
     let (res, _) = router_match rt m path in
     let rs = Rt.sres ridmap res in
@@ -84,7 +85,9 @@ let judge cs obs =
              let vs = List.map (fun nme -> match List.find_opt (fun (k, _) -> str_eqb k (n_of_int 123 :: nme @ [n_of_int 125])) b.vals with Some (_, v) -> v | None -> []) names in
              let expect_path = match r.s_pat with Some p -> subst_items p.p_req vs | None -> r.s_path in
              (* query clause *)
-             let eq = if b.style = "b" then [] else sort_assoc b.extra in
+             (* (builder style: every key is given two values, v and v~2, through BuildRequestURL.Queries) *)
+             let eq = if b.style = "b" then List.concat (List.map (fun (k, v) -> [(k, v); (k, v @ str_of_ascii "~2")]) (sort_assoc b.extra))
+               else sort_assoc b.extra in
              let qs = to_string (L (List.map (fun (k, v) -> L [sstr k; sstr v]) eq)) in
              if to_string (L q) <> qs then "bad query-parameters expected=" ^ qs
              else
